@@ -29,12 +29,14 @@ CCG = 'phylib/stats/ccg.py'
 def model_attrs(sparse=False, feat_rows=False, curated=True, no_features=False, store=False):
     tcols = Arr((Tmpl, Loc), Ix(Chan, True)) if sparse else NoneT()
     tdata = Arr((Tmpl, Samp, Loc if sparse else Chan), AMPWH)
+    st_arr = Arr((Spike,), Ix(Tmpl))
+    sc_arr = Arr((Spike,), Ix(Clu))
     a = {
         'wmi': Arr((Chan, Chan), WHI), 'wm': Arr((Chan, Chan), WH),
         'channel_positions': Arr((Chan, XY), UM), 'channel_shanks': Arr((Chan,), Ix(Shank)),
         'channel_probes': Arr((Chan,), Ix(Probe)), 'channel_mapping': Arr((Chan,), Ix(RawChan)),
         'n_closest_channels': Q(), 'amplitude_threshold': Q(), 'template_scaling': Q(),
-        'spike_templates': Arr((Spike,), Ix(Tmpl)), 'spike_clusters': Arr((Spike,), Ix(Clu)),
+        'spike_templates': st_arr, 'spike_clusters': sc_arr,
         'spike_times': Arr((Spike,), SEC), 'spike_samples': Arr((Spike,), SAMPQ),
         'amplitudes': Arr((Spike,), KA), 'sample_rate': RATE,
         'sparse_templates': Rec({'data': tdata, 'cols': tcols}),
@@ -45,7 +47,7 @@ def model_attrs(sparse=False, feat_rows=False, curated=True, no_features=False, 
                                          'rows': Arr((FeatRow,), Ix(Spike)) if feat_rows else NoneT()}),
         'n_templates': SizeOf(Tmpl), 'n_clusters': SizeOf(Clu), 'n_channels': SizeOf(Chan), 'n_spikes': SizeOf(Spike),
         'n_samples_waveforms': SizeOf(Samp), 'n_channels_loc': SizeOf(Loc),
-        'template_ids': Arr((Space('Present', 'tmpl'),), Ix(Tmpl)), 'cluster_ids': Arr((Space('Present', 'clu'),), Ix(Clu)),
+        'template_ids': Arr((Space('Present', st_arr.vid, None, of=st_arr),), Ix(Tmpl)), 'cluster_ids': Arr((Space('Present', sc_arr.vid, None, of=sc_arr),), Ix(Clu)),
         'merge_map': DictT(Ix(Clu), ListT(Ix(Tmpl))), 'nan_idx': Arr((Space('K', 'nan'),), Ix(Clu)),
         'traces': Rec({'__reader__': UNK}),
         'spike_waveforms': Rec({'spike_ids': Arr((B('Row'),), Ix(Spike)), 'spike_channels': Arr((B('Row'), Loc), Ix(Chan, True)),
@@ -140,3 +142,93 @@ def sig_compute_pcs(S, e, a, kw, env):
 
 
 COMMON_SIGS = {'_index_of': sig_index_of, 'from_sparse': sig_from_sparse, '_compute_pcs': sig_compute_pcs}
+
+
+# ---------------------------------------------------------------------------------------------- ALF exporter runs (C13.A1, C14)
+def _name_in(node):
+    """The file-name constant inside a path expression (`self.out_path / 'x.npy'`, `p.joinpath('x')`, `peak_path.name`)."""
+    for n in ast.walk(node):
+        if isinstance(n, ast.Constant) and isinstance(n.value, str) and '.' in n.value:
+            return n.value if n.value.endswith(('.npy', '.csv')) else n.value + '.npy'
+    return None
+
+
+def alf_run(repo, method, attrs=None, extra_env=None, curated=True):
+    """Run one EphysAlfCreator method under the shape engine; -> (Shape, {file name: saved array})."""
+    from vlib.shape import Shape
+    cls = repo.cls(ALF, 'EphysAlfCreator')
+    fi = repo.lookup_method(cls, method)
+    if fi is None:
+        from vlib.front import AnchorMissing
+        raise AnchorMissing('EphysAlfCreator.%s' % method)
+    a = model_attrs() if attrs is None else dict(attrs)
+    a.setdefault('ampfactor', F)
+    a.setdefault('cluster_ids', a['cluster_ids'])
+    saved = {}
+
+    def sig_save_npy(S, e, args, kw, env):
+        nm = None
+        if e.args:
+            a0 = e.args[0]
+            if isinstance(a0, ast.Constant):
+                nm = a0.value
+            elif isinstance(a0, ast.Attribute) and a0.attr == 'name' and isinstance(a0.value, ast.Name):
+                d = fi.unique_def(a0.value.id)
+                nm = _name_in(d) if d is not None else None
+        saved[nm or unparse(e.args[0])] = (e, args[1] if len(args) > 1 else UNK)
+        return NoneT()
+
+    def sig_np_save(S, e, args, kw, env):
+        nm = _name_in(e.args[0]) if e.args else None
+        saved[nm or unparse(e.args[0])] = (e, args[1] if len(args) > 1 else UNK)
+        return NoneT()
+
+    def sig_np_load(S, e, args, kw, env):
+        nm = _name_in(e.args[0]) if e.args else None
+        if nm in PRIOR:
+            return PRIOR[nm]
+        return UNK
+    sigs = dict(COMMON_SIGS)
+    sigs.update({'self._save_npy': sig_save_npy, 'np.save': sig_np_save, 'np.load': sig_np_load})
+    S = Shape(repo, selfattrs=a, sigs=sigs, inline_depth=4)
+    env = {'self': UNK}
+    env.update(extra_env or {})
+    S.run(fi, env)
+    return S, saved, fi
+
+
+PRIOR = {'clusters.channels.npy': Arr((Clu,), Ix(Chan))}     # what make_cluster_objects wrote (checked by C13.A1 itself)
+
+
+def c13_a1(ctx):
+    """First dimension of every exported object table (C13.A1)."""
+    repo = ctx.repo
+    want = {'spikes.': Spike, 'clusters.': Clu, 'templates.': Tmpl, 'channels.': Chan}
+    allsaved = {}
+    nrep = 0
+    for meth in ('make_cluster_objects', 'make_channel_objects', 'make_template_and_spikes_objects', 'make_depths'):
+        for nofeat in ((False, True) if meth == 'make_depths' else (False,)):
+            S, saved, fi = alf_run(repo, meth, attrs=model_attrs(no_features=nofeat))
+            for r in S.reports:
+                nrep += 1
+                ctx.violated('C13.A1', r.fi, r.node, '[%s] %s' % (meth, r.msg))
+            for nm, (node, arr) in saved.items():
+                allsaved[(nm, meth, nofeat)] = (node, arr, fi)
+    n = 0
+    for (nm, meth, nofeat), (node, arr, fi) in sorted(allsaved.items(), key=lambda kv: str(kv[0])):
+        pref = [p for p in want if nm.startswith(p)]
+        if not pref:
+            continue
+        sp = want[pref[0]]
+        n += 1
+        if isinstance(arr, Arr) and arr.axes and not is_unk(arr.axes[0]):
+            ctx.check(arr.axes[0] is sp, 'C13.A1', fi, '%s first axis' % nm, '%s has one row per %s' % (nm, sp),
+                      '%s has its first axis over %s, expected one row per %s' % (nm, arr.axes[0], sp))
+        else:
+            ctx.undecided('C13.A1', fi, 'first axis of %s not typed (%s)' % (nm, arr), node)
+    need = ['spikes.times.npy', 'spikes.samples.npy', 'spikes.amps.npy', 'spikes.depths.npy', 'clusters.channels.npy', 'clusters.peakToTrough.npy', 'clusters.amps.npy',
+            'clusters.depths.npy', 'clusters.waveforms.npy', 'clusters.waveformsChannels.npy', 'templates.amps.npy', 'templates.waveforms.npy', 'templates.waveformsChannels.npy', 'channels.rawInd.npy']
+    got = {k[0] for k in allsaved}
+    miss = [x for x in need if x not in got]
+    ctx.check(not miss, 'C13.A1', ALF + ':EphysAlfCreator', 'exported tables', 'all %d object tables of the export were typed' % len(need), 'object tables no longer written / not recognised: %s' % miss)
+    return allsaved
